@@ -434,7 +434,7 @@ func genFor(prop, part string, seed uint64) *Scenario {
 		}
 		pf.narrowP, pf.emptyMsgP, pf.builtinP, pf.nilOut = 15, 30, 30, true
 		if part == "err" {
-			sc := genC15(seed, common.NewRng(seed).PickS("filler", "filler", "output"))
+			sc := genC15(seed, common.NewRng(seed).PickS("filler", "filler", "output", "pty"))
 			sc.Fam = "C01/err"
 			return sc
 		}
@@ -460,7 +460,7 @@ func genFor(prop, part string, seed uint64) *Scenario {
 			return genC02Waiters(seed)
 		}
 		if part == "err" {
-			sc := genC15(seed, common.NewRng(seed).PickS("filler", "filler", "output"))
+			sc := genC15(seed, common.NewRng(seed).PickS("filler", "filler", "output", "pty"))
 			sc.Fam = "C02/err"
 			sc.Late = true
 			return sc
@@ -491,7 +491,7 @@ func genFor(prop, part string, seed uint64) *Scenario {
 			return sc
 		}
 		if part == "err" {
-			sc := genC15(seed, common.NewRng(seed).PickS("filler", "filler", "output"))
+			sc := genC15(seed, common.NewRng(seed).PickS("filler", "filler", "output", "pty"))
 			sc.Fam = "C16/err"
 			return sc
 		}
